@@ -15,7 +15,7 @@ import (
 
 var sqlrTypes = []string{"INTEGER", "BIGINT", "int", "REAL", "DOUBLE PRECISION", "FLOAT", "NUMERIC(10,2)", "BOOLEAN", "bool",
 	"TIMESTAMP", "DATETIME", "DATE", "DATETIME2", "TEXT", "VARCHAR(20)", "CHAR(3)", "BLOB", "", "POINT", "INTERVAL", "JSON",
-	"TINYINT", "TINYINT(1)", "tinyint unsigned", "SMALLINT", "MEDIUMINT", "INT8", "DECIMAL(5,2)", "BIT"}
+	"NUMERIC(10,0)", "NUMERIC(12,0)", "DECIMAL(8,0)", "TINYINT", "TINYINT(1)", "tinyint unsigned", "SMALLINT", "MEDIUMINT", "INT8", "DECIMAL(5,2)", "BIT"}
 
 // natural scan kind of a declared type, mirroring the documented table (harness-side, for generation only)
 func declKind(t string) string {
@@ -188,7 +188,7 @@ func genSqlr(r *Rng) *Enc {
 	case 4:
 		for _, n := range names {
 			if r.Bool() {
-				mapVals[n] = Pick(r, []any{0, "dflt", -1.5, false, int64(7)})
+				mapVals[n] = Pick(r, []any{0, "dflt", -1.5, false, int64(7), "zero", "skip_row", "nil"})
 			} else if r.Chance(40) {
 				// a key that equals the column name only up to letter case is NOT that column's entry
 				mapVals[upperASCII(n)] = Pick(r, []any{1, "other", int64(9)})
